@@ -117,6 +117,8 @@ type autoCand struct {
 	op    string
 	bound string
 	name  string
+	// clause: a migrated loop invariant (see orphanInvs) instead of a bound on phi
+	clause *Clause
 }
 
 type Exec struct {
@@ -128,6 +130,10 @@ type Exec struct {
 	noteSet   map[string]bool
 	maxDepth  int
 	dropAuto  map[string]bool
+	// orphanInvs: conjuncts of loop invariants the contract of the function under verification
+	// gives for loops it no longer has (the loop was moved into a helper). They are tried as
+	// candidate invariants on the loops of helpers that have no contract of their own.
+	orphanInvs []*Clause
 	dispatchDepth int
 	stack     []*ssa.Function
 	noDefine  int
@@ -793,6 +799,20 @@ func (x *Exec) evalLoopClause(fr *Frame, inv *Clause, st *State, point *ssa.Basi
 	return x.evalClause(fr, inv, st, point, nil), true
 }
 
+// tryLoopClause evaluates a clause that may not make sense at this loop at all: any
+// contract error means "not a candidate here".
+func (x *Exec) tryLoopClause(fr *Frame, cl *Clause, st *State, point *ssa.BasicBlock) (f string, ok bool) {
+	defer func() {
+		if r := recover(); r != nil {
+			if _, isCE := r.(contractError); !isCE {
+				panic(r)
+			}
+			f, ok = "true", false
+		}
+	}()
+	return x.evalClause(fr, cl, st, point, nil), true
+}
+
 // loopHead cuts the loop: asserts invariants on entry, havocs, assumes.
 func (x *Exec) loopHead(fr *Frame, li *loopInfo, entry *State, phiEntry map[*ssa.Phi]V) *State {
 	var lc *LoopContract
@@ -972,6 +992,32 @@ func (x *Exec) loopHead(fr *Frame, li *loopInfo, entry *State, phiEntry map[*ssa
 			}
 		}
 	}
+	// 3b. migrated invariants: a loop of a helper without a contract, inlined into a function
+	// whose contract still carries invariants for a loop it no longer has. Every conjunct that
+	// can be evaluated here is a candidate (entry + step obligations, dropped when either fails).
+	if fr.contract == nil && !fr.top && len(x.orphanInvs) > 0 {
+		for ci, cl := range x.orphanInvs {
+			name := fmt.Sprintf("%s#loop%d.migrated%d", fname, li.ordinal, ci+1)
+			if x.dropAuto[name] {
+				continue
+			}
+			for phi, v := range phiEntry {
+				fr.vals[phi] = v
+			}
+			fe, ok1 := x.tryLoopClause(fr, cl, entry, li.head)
+			for phi, v := range li.headPhis {
+				fr.vals[phi] = v
+			}
+			fh, ok2 := x.tryLoopClause(fr, cl, head, li.head)
+			if !ok1 || !ok2 {
+				continue
+			}
+			x.addObl(&Obligation{Name: name + ".entry", Kind: "inv-entry", Auto: name, Func: fname, Pos: x.prog.pos(li.minPos), Guard: entry.guard,
+				Formula: fe, Src: "candidate invariant (migrated from the caller's contract): " + cl.Src})
+			li.autoInv = append(li.autoInv, autoCand{name: name, clause: cl})
+			x.assume(head.guard, fh)
+		}
+	}
 	// 3. assume invariants
 	if lc != nil {
 		for _, inv := range lc.Invariants {
@@ -1031,6 +1077,16 @@ func (x *Exec) loopLatch(fr *Frame, li *loopInfo, latch *ssa.BasicBlock, st *Sta
 		fr.vals[phi] = v
 	}
 	for _, ac := range li.autoInv {
+		if ac.clause != nil {
+			if f, ok := x.tryLoopClause(fr, ac.clause, st, li.head); ok {
+				x.addObl(&Obligation{Name: ac.name + ".step", Kind: "inv-step", Auto: ac.name,
+					Func: fname, Pos: x.prog.pos(li.minPos), Guard: cond, Formula: f, Src: "candidate invariant (migrated from the caller's contract): " + ac.clause.Src})
+			} else {
+				x.addObl(&Obligation{Name: ac.name + ".step", Kind: "inv-step", Auto: ac.name,
+					Func: fname, Pos: x.prog.pos(li.minPos), Guard: cond, Formula: "false", Src: "candidate invariant (migrated) cannot be evaluated at the back edge: " + ac.clause.Src})
+			}
+			continue
+		}
 		x.addObl(&Obligation{Name: ac.name + ".step", Kind: "inv-step", Auto: ac.name,
 			Func: fname, Pos: x.prog.pos(li.minPos), Guard: cond, Formula: "(" + ac.op + " " + x.toMathInt(next[ac.phi]) + " " + ac.bound + ")", Src: "candidate invariant (auto-invariants): " + strings.TrimPrefix(phiName(ac.phi), "v_") + " " + ac.op + " " + ac.bound})
 	}
